@@ -170,9 +170,9 @@ def rule_hc12(prog):
                 expected='low.<registry A>.add(node) and '
                          'high.<registry B>.add(node)'))
     if nalloc == 0:
-        r1.fail(Finding(PROP, 'R-HC-1', new.where(), new.short(),
-                        'never-allocates', 'no path of the constructor '
-                        'allocates a node'))
+        # nothing recognised as the allocation: outside the fragment
+        raise Inconclusive('R-HC-1', 'no path of the constructor allocates '
+                           'a node', new.where())
         reg_fields = None
     # terminals
     tnew = prog.method(tt, '__new__', own=True)
@@ -210,7 +210,8 @@ def rule_hc12(prog):
             if isinstance(n, ast.Call) and isinstance(n.func,
                                                       ast.Attribute) and \
                     n.func.attr == '__new__':
-                inside = fi.name == '__new__' and fi.owner in (nt, tt)
+                inside = fi.qn in constructor_closure(prog) and \
+                    fi.owner in (nt, tt)
                 r1.inst(allocation_site=fi.short(),
                         line=n.lineno, inside_constructor=inside)
                 if inside:
@@ -256,6 +257,12 @@ def rule_hc3(prog, lookup, reg_fields):
                                               for (c, pol) in p.pc])
             continue
         nfound += 1
+        if isinstance(v, Sym) and v.meta and v.meta[0] in ('elem', 'next') \
+                and not ex:
+            # an element taken from an iterator whose filtering is outside
+            # the interpreted fragment: no verdict
+            raise Inconclusive('R-HC-3', 'the lookup returns %r' % (v,),
+                               lookup.where())
         if not (isinstance(v, Sym) and v.meta and v.meta[0] == 'elem' and
                 ex):
             r.fail(Finding(PROP, 'R-HC-3', lookup.where(), lookup.short(),
@@ -286,8 +293,15 @@ def rule_hc3(prog, lookup, reg_fields):
             reg_fields[0] if child == low else reg_fields[1])
         r.inst(scans=repr(reg), tests_variable=tv, tests_other_child=to,
                registry_matches_registration=consistent)
+        opaque = [c for (c, pol) in conds
+                  if any(isinstance(x, App) and x.op in ('call', 'mcall')
+                         for x in walk(c))]
         if ok_reg and tv and to and consistent:
             r.ok()
+        elif opaque and ok_reg and consistent:
+            # a test is delegated to something that is not interpreted
+            raise Inconclusive('R-HC-3', 'lookup condition %r' % (opaque[0],),
+                               lookup.where())
         else:
             r.fail(Finding(
                 PROP, 'R-HC-3', lookup.where(), lookup.short(),
@@ -307,6 +321,46 @@ def rule_hc3(prog, lookup, reg_fields):
     return r
 
 
+def constructor_closure(prog):
+    """names of the functions of the BDD package that run only as part of
+    the construction of a node: the `__new__` methods of the node classes and
+    every function all of whose call sites (by name, over the package) lie
+    inside this set -- the reset routine, and any private helper extracted
+    from the constructor or from the reset routine"""
+    base, nt, tt = _classes(prog)
+    fns = [fi for fi in prog.all_functions()
+           if fi.module.name.startswith(prog.module('BDD').name)]
+    by_name = {}
+    for fi in fns:
+        by_name.setdefault(fi.name, []).append(fi)
+    sites = {}          # callee name -> set of caller qn
+    for fi in fns:
+        for n in ast.walk(fi.node):
+            if isinstance(n, ast.Call):
+                nm = n.func.attr if isinstance(n.func, ast.Attribute) else (
+                    n.func.id if isinstance(n.func, ast.Name) else None)
+                if nm in by_name:
+                    sites.setdefault(nm, set()).add(fi.qn)
+    cc = set(fi.qn for fi in fns if fi.name == '__new__' and
+             fi.owner is not None and fi.owner.is_subclass_of(base))
+    names = set()
+    changed = True
+    while changed:
+        changed = False
+        for nm, callers in sites.items():
+            if nm in names or nm == '__new__' or nm.startswith('__') and \
+                    nm.endswith('__') and nm != '__reset__':
+                continue
+            members = [fi for fi in by_name[nm]]
+            outside = callers - set(f.qn for f in members)
+            if outside and outside <= cc:
+                names.add(nm)
+                for f in members:
+                    cc.add(f.qn)
+                changed = True
+    return cc
+
+
 def rule_hc45(prog):
     r4 = RuleResult('R-HC-4', 'node fields are written only by the reset '
                     'routine (called on a fresh node)')
@@ -315,11 +369,13 @@ def rule_hc45(prog):
                     'equality')
     base, nt, tt = _classes(prog)
     E = Effects(prog, ['BDD'])
+    CC = constructor_closure(prog)
     fields = ('var', 'low', 'high', 'value', 'f_low', 'f_high')
     for s in E.summ.values():
         for (kind, name, tgt, where, rts) in s.raw_writes:
             if kind == 'setattr' and name in fields:
-                ok = s.fi.name == '__reset__' and s.fi.owner is not None and \
+                ok = s.fi.qn in CC and s.fi.name != '__new__' and \
+                    s.fi.owner is not None and \
                     s.fi.owner.is_subclass_of(base)
                 r4.inst(function=s.fi.short(), field=name, where=where)
                 if ok:
@@ -341,7 +397,7 @@ def rule_hc45(prog):
                     x.args[1].v in ('f_low', 'f_high')]
             if not regs or tgt is not regs[0] and tgt != regs[0]:
                 continue
-            ok = s.fi.name == '__reset__' and name == 'add'
+            ok = s.fi.qn in CC and s.fi.name != '__new__' and name == 'add'
             r4.inst(function=s.fi.short(), registry_operation=name,
                     on=repr(tgt)[:60], where=where)
             if ok:
@@ -363,7 +419,7 @@ def rule_hc45(prog):
             if isinstance(n, ast.Call) and isinstance(n.func,
                                                       ast.Attribute) and \
                     n.func.attr == '__reset__':
-                ok = fi.name in ('__new__', '__reset__')
+                ok = fi.qn in CC
                 r4.inst(reset_call_in=fi.short(), line=n.lineno)
                 if ok:
                     r4.ok()
